@@ -31,6 +31,9 @@ class VState:
         self.lin = {}          # local -> ('sub', term a, term b)   (a − b, two variables)
         self.bools = {}
         self.subview = {}      # local -> (lo term, hi term)
+        self.refint = {}       # local holding `&int_local` -> term
+        self.ordcmp = {}       # Ordering local -> (a term, b term) from Ord::cmp(&a, &b)
+        self.discr_of = {}     # discriminant local -> Ordering local
         self.nsym = 0
 
     def fresh(self, base):
@@ -259,11 +262,23 @@ class SelectionProof:
             fs = [self.term(f) for f in rv["fields"]]
             st.subview[l] = (rv["adt"], fs)
             return
+        if rv["k"] == "discr" and not rv["pl"]["p"]:
+            if rv["pl"]["l"] in st.ordcmp:
+                st.discr_of[l] = rv["pl"]["l"]
+            return
         if rv["k"] in ("ref", "use"):
             pl = rv["pl"] if rv["k"] == "ref" else rv["a"].get("pl")
             if pl is None:
                 return
             base = pl["l"]
+            if rv["k"] == "ref" and not pl["p"] and base in self.int_locals:
+                st.refint[l] = (self.name(base), 0)
+            elif base in st.refint and all(p == "deref" for p in pl["p"]):
+                st.refint[l] = st.refint[base]
+            else:
+                st.refint.pop(l, None)
+            if rv["k"] == "use" and not pl["p"] and base in st.ordcmp:
+                st.ordcmp[l] = st.ordcmp[base]
             if all(p == "deref" for p in pl["p"]):
                 for m in (st.elem, st.subview, st.val):
                     if base in m:
@@ -274,6 +289,27 @@ class SelectionProof:
     def switch(self, st, t, nxt):
         dsc = t["discr"]
         if dsc["k"] not in ("move", "copy") or dsc["pl"]["p"]:
+            return
+        dl = dsc["pl"]["l"]
+        if dl in st.discr_of or dl in st.ordcmp:
+            a, c = st.ordcmp[st.discr_of.get(dl, dl)]
+            taken = None
+            vals = []
+            for v, tgt in t["arms"]:
+                ov = -1 if v in (255, 65535, 4294967295, 18446744073709551615) or (isinstance(v, str)) else v
+                vals.append(ov)
+                if tgt == nxt and nxt != t["otherwise"]:
+                    taken = ov
+            if taken is None and nxt == t["otherwise"]:
+                rest = [x for x in (-1, 0, 1) if x not in vals]
+                taken = rest[0] if len(rest) == 1 else None
+            if taken == -1:
+                st.d.add(a[0], c[0], c[1] - a[1] - 1)
+            elif taken == 0:
+                st.d.add(a[0], c[0], c[1] - a[1])
+                st.d.add(c[0], a[0], a[1] - c[1])
+            elif taken == 1:
+                st.d.add(c[0], a[0], a[1] - c[1] - 1)
             return
         info = st.bools.get(dsc["pl"]["l"])
         if info is None or t.get("discr_ty") != "bool":
@@ -306,6 +342,11 @@ class SelectionProof:
                 return False
             st.d.add(pos[0], "N", -1 - pos[1])
             st.elem[d["l"]] = pos
+            return True
+        if nm == "cmp" and len(t["args"]) == 2 and (t["callee"].get("trait") or "").endswith("cmp::Ord"):
+            ls = [x["pl"]["l"] if x["k"] in ("move", "copy") and not x["pl"]["p"] else None for x in t["args"]]
+            if ls[0] in st.refint and ls[1] in st.refint and not d["p"]:
+                st.ordcmp[d["l"]] = (st.refint[ls[0]], st.refint[ls[1]])
             return True
         if nm == "clone" and len(t["args"]) == 1:
             a = t["args"][0]
